@@ -162,7 +162,7 @@ pub fn check_pos(ctx: &mut Ctx, mp: &MPos, b: &Board) {
         ctx.violation("validator_own_men_tuples", &case, &d);
     }
     // ... and on a sample of positions every well-formed tuple of BOTH colours and ALL men
-    if ctx.cases % 4 == 1 || ctx.is_replay {
+    if (ctx.cases % 4 == 1 && (ctx.config != "miri" || ctx.cases == 1)) || ctx.is_replay {
         let mut acc: Vec<MMove> = Vec::new();
         let mut n = 0u64;
         for k in MKind::ALL {
